@@ -58,17 +58,20 @@ REQUIRED_FEATURES = ["ref:ll1-as-written", "ref:not-ll1-as-written", "impl:table
                      "obliged:conflict-free-only:member", "obliged:conflict-free-only:non-member",
                      "grammar:nullable", "grammar:nullable-symbol-after-non-terminal",
                      "grammar:epsilon-alternative-before-token-alternative", "family:follow",
-                     "order:start-symbol-last", "grammar:follow-dependency-chain"]
+                     "order:start-symbol-last", "grammar:follow-dependency-chain",
+                     "family:wide", "grammar:more-than-5-alternatives-with-one-first-symbol"]
 
 _SPACES = {
     # (kind, params..., input length, shards)
     "quick": [("sized", "EA", "ab", 2, 2, 5, 4, 16), ("sized", "EAB", "a", 2, 3, 6, 4, 48),
-              ("follow", "xyb", 3, True, True, False, 3, 160, False)],
+              ("follow", "xyb", 3, True, True, False, 3, 160, False),
+              ("wide", "pqzcdefgh", 0, 0, 0, 0, 3, 8)],
     "thorough": [("sized", "EA", "ab", 3, 3, 6, 5, 32), ("sized", "EA", "ab", 3, 3, 7, 4, 160),
                  ("sized", "EAB", "a", 2, 3, 6, 5, 64), ("sized", "EAB", "ab", 2, 2, 5, 4, 32),
                  ("follow", "xyb", 3, False, True, False, 4, 400, True),
                  ("follow", "xy", 3, False, False, True, 4, 120, True),
-                 ("follow2", "xy", 0, 0, 0, 0, 4, 64)],
+                 ("follow2", "xy", 0, 0, 0, 0, 4, 64),
+                 ("prefix", "ab", True, 4, 0, 0, 5, 64), ("wide", "pqzcdefgh", 0, 0, 0, 0, 4, 48)],
 }
 # spaces explored in both insertion orders of the productions dict
 _BOTH_ORDERS = ("sized", "follow2")
@@ -88,6 +91,14 @@ def _space_gen(sp, k, K):
     if kind == "follow2":
         cfg = G.letters_cfg(sp[1])
         return cfg, sp[6], G.family_follow2(cfg.terms, (k, K))
+    if kind == "wide":
+        cfg = G.letters_cfg(sp[1])
+        return cfg, sp[6], (g for j, g in enumerate(G.family_wide(cfg.terms)) if j % K == k)
+    if kind == "prefix":
+        cfg = G.letters_cfg(sp[1])
+        gen = (g for j, g in enumerate(G.family_prefix(cfg.terms, ("E", "A"), full=sp[2], min_group=sp[3]))
+               if j % K == k)
+        return cfg, sp[6], gen
     raise ValueError(sp)
 
 
@@ -107,6 +118,15 @@ def bounds(tier):
                         "one_representative_per_terminal_renaming": canonical,
                         "rich_symbol_in_own_alternatives_behind_terminal": self_ref,
                         "grammars": "counted at run time (feature family:follow)", "input_len_max": L})
+        elif sp[0] == "wide":
+            out.append({"space": "wide-group family (4-7 alternatives with one prefix and distinct next symbols)",
+                        "terminals": list(sp[1]), "grammars": sum(1 for _ in G.family_wide(tuple(sp[1]))),
+                        "input_len_max": sp[6]})
+        elif sp[0] == "prefix":
+            out.append({"space": "common-prefix family of C01 (groups around the 'more than 5 alternatives' "
+                                 "rule of smart factorization)", "min_group": sp[3], "all_variants": sp[2],
+                        "grammars": sum(1 for _ in G.family_prefix(tuple(sp[1]), full=sp[2], min_group=sp[3])),
+                        "input_len_max": sp[6]})
         else:
             out.append({"space": "two-rich-one-helper family", "terminals": list(sp[1]), "dict_orders": 2,
                         "grammars": "counted at run time (feature family:follow2)", "input_len_max": sp[6]})
@@ -135,6 +155,8 @@ def _shape_feats(pm):
             if a and a[-1] in pm and a[-1] != x and any(b and b[-1] in pm and b[-1] not in (x, a[-1])
                                                        for b in pm[a[-1]]):
                 feats.append("grammar:follow-dependency-chain")
+        if len(alts) > 5 and max(sum(1 for a in alts if a[:1] == b[:1]) for b in alts) > 5:
+            feats.append("grammar:more-than-5-alternatives-with-one-first-symbol")
         seen_eps = False
         for a in alts:
             if not a:
@@ -157,7 +179,8 @@ def _machine_state(p):
 
 
 def check_grammar(cfg, start, prods, L, inputs, acc, modes=(True, False)):
-    """-> (features, nontrivial, outcome, compared parses) or None when outside the quantifier."""
+    """Explore one case (one grammar, one insertion order).  -> (features, nontrivial, outcome label,
+    number of compared parses); a grammar outside the quantifier is only labelled."""
     pm = dict(prods)
     if G.left_cycle(pm):
         return ["outside:left-recursive"], False, "outside", 0
@@ -170,7 +193,7 @@ def check_grammar(cfg, start, prods, L, inputs, acc, modes=(True, False)):
     members = non_members = 0
     shapes = {}
     out = []
-    done = {}          # smart -> (machine state, verdict list) of an obliged mode already explored
+    done = {}          # smart -> machine state of an obliged mode already explored
 
     def case(smart, toks=None):
         c = G.to_case(cfg, start, prods, smart=smart, L=L)
@@ -199,7 +222,7 @@ def check_grammar(cfg, start, prods, L, inputs, acc, modes=(True, False)):
             except Exception as e:  # noqa
                 amb = None
                 acc.violation("C02:is_ambiguous-raises", case(smart), f"is_ambiguous() raised {e!r}",
-                              repr(e), not ll1)
+                              repr(e), "True or False")
             feats.append("impl:table-with-conflicts" if amb else "impl:table-conflict-free")
             diag = None
             if ll1 and amb:
@@ -283,7 +306,7 @@ def check_grammar(cfg, start, prods, L, inputs, acc, modes=(True, False)):
                                   f"{amb2} after parsing all token strings of length <= {L}", amb2, False)
     for toks, by_mode in shapes.items():
         if len(by_mode) == 2 and by_mode[True] != by_mode[False]:
-            acc.violation("C02:modes-return-different-trees", case(True, toks),
+            acc.violation("C02:modes-return-different-trees", case("both", toks),
                           f"{G.show(prods)}: both modes are obliged but return different trees for "
                           f"{cfg.text(toks)!r}", repr(by_mode[True]), repr(by_mode[False]))
     nontrivial = bool(n_cmp and has_nullable and members and non_members)
@@ -320,7 +343,8 @@ def replay(case, acc):
         L = max(L, len(inputs[0]))
     else:
         inputs = G.all_inputs(cfg, L)
-    feats, nt, out, n_cmp = check_grammar(cfg, start, prods, L, inputs, acc, modes=(case["smart"],))
+    modes = (True, False) if case.get("smart", "both") == "both" else (bool(case["smart"]),)
+    feats, nt, out, n_cmp = check_grammar(cfg, start, prods, L, inputs, acc, modes=modes)
     acc.case(nontrivial=nt, features=feats, outcome=out, traces=n_cmp)
 
 
